@@ -40,12 +40,12 @@ type dcType struct {
 }
 
 type dcPkg struct {
-	Name   string   `json:"name"`
-	PkgTag bool     `json:"pkgtag"` // package-level +gengo:deepcopy
+	Name   string `json:"name"`
+	PkgTag bool   `json:"pkgtag"` // package-level +gengo:deepcopy
 	// PkgInterfaces: +gengo:deepcopy:interfaces=m/obj.Object stands in the package doc as well, so every type of the package
 	// that is not an interface gets DeepCopyObject (the per-type tags are then not written)
-	PkgInterfaces bool `json:"pkginterfaces,omitempty"`
-	Types  []dcType `json:"types"`
+	PkgInterfaces bool     `json:"pkginterfaces,omitempty"`
+	Types         []dcType `json:"types"`
 }
 
 type c17Case struct {
